@@ -553,7 +553,12 @@ func (x *Exec) step(st *State, fr *Frame, instr ssa.Instruction) {
 			fr.vals[in] = ErrV{Class: num(x.errClassOf("type:" + typeKey(in.X.Type()))), Wrapped: "false"}
 			return
 		}
-		fr.vals[in] = IfaceV{Dyn: in.X.Type(), Payload: v, Static: in.Type()}
+		iv := IfaceV{Dyn: in.X.Type(), Payload: v, Static: in.Type()}
+		fr.vals[in] = iv
+		if p, ok := v.(PtrV); ok && p.Ref != "" && len(p.Path) == 0 && !p.Nil {
+			// what the object serves as a positional reader is fixed by its state now
+			x.ifaceStored(st, iv, p)
+		}
 	case *ssa.ChangeInterface:
 		fr.vals[in] = x.get(st, fr, in.X)
 	case *ssa.ChangeType:
